@@ -261,9 +261,12 @@ def harness_refusal(eng, ctx):
             cfg['rain_t'] = [t for t in cfg['rain_t'] if t != inside[k]]          # a row is missing
         else:
             cfg['rain_t'] = [t + (s // 3 if t == inside[k] else 0) for t in cfg['rain_t']]   # a row is late
-    elif kind == 'missing_et':
+    elif kind in ('missing_et', 'mistyped_et'):
         k = eng.choose(len(inside), 'which')
         cfg['et_t'] = [t for t in cfg['et_t'] if t != inside[k]]
+        if kind == 'mistyped_et':
+            # the row is there but its timestamp is off the grid (e.g. 02:03 typed for 02:30)
+            cfg['et_t'] = sorted(cfg['et_t'] + [inside[k] + s // 3])
     texts, rain, et, lev = C10.make_texts(eng, cfg)
     conn = symsql.Connection()
     try:
@@ -365,7 +368,7 @@ class C11(Check):
         ctx['orders'] = ['sorted']
         ctx['ratios'] = ['1', '2/3']
         ctx['max_missing'] = 1
-        for kind in ('irregular_rain', 'missing_et', 'populated'):
+        for kind in ('irregular_rain', 'missing_et', 'mistyped_et', 'populated'):
             c = dict(ctx, kind=kind)
             if kind == 'populated':
                 c['offsets'] = c['offsets'][:2]
